@@ -14,4 +14,4 @@ one() {
   rm -rf $w
 }
 export -f one
-printf '%s\n' "$@" | xargs -P 6 -I{} bash -c 'one {}'
+printf '%s\n' "$@" | xargs -P 8 -I{} bash -c 'one {}'
